@@ -62,7 +62,6 @@ CONTRACT(PRE_tround_tdur_cocl(t, dur, nextp), POST_tround_tdur_cocl(RV, t, dur, 
 #define POST_dround_ddur_d(ret, d, dur, nextp) \
 	((ret).typ == DT_YMD && MIDX((ret).ymd.y, (ret).ymd.m) == D_MIDX(d, dur, nextp) && (ret).ymd.m >= 1 && (ret).ymd.m <= 12 && \
 	 (int)(ret).ymd.d == (RABS(dur) > S_MDAYS(D_MIDX(d, dur, nextp) / 12, D_MIDX(d, dur, nextp) % 12 + 1) ? S_MDAYS(D_MIDX(d, dur, nextp) / 12, D_MIDX(d, dur, nextp) % 12 + 1) : RABS(dur)))
-#define MIDX(y, m) (12 * (int)(y) + (int)(m) - 1)
 #define PRE_dround_ddur(d, dur, nextp) (PRE_dround_ddur_mo(d, dur, nextp) || PRE_dround_ddur_d(d, dur, nextp))
 #define POST_dround_ddur(ret, d, dur, nextp) ((dur).durtyp == DT_DURD ? POST_dround_ddur_d(ret, d, dur, nextp) : POST_dround_ddur_mo(ret, d, dur, nextp))
 static struct dt_d_s dround_ddur(struct dt_d_s d, struct dt_ddur_s dur, bool nextp)
